@@ -290,7 +290,25 @@ pub fn run_case(id: &str, cfg: &Value) -> Value {
             Ok(n) => json!({"k": "ok", "ret": n, "same": if *n <= sbuf.len() && sbuf[..*n] == out[..] { 1 } else { 0 }, "canary": if sbuf[size + 2..].iter().all(|x| *x == 0xC7) { 1 } else { 0 }}),
             Err(e) => json!({"k": serr(e)["k"], "ret": -1, "same": -1, "canary": if sbuf[size + 2..].iter().all(|x| *x == 0xC7) { 1 } else { 0 }}),
         };
-        json!({"ev": "build", "id": id, "cfg": cfg, "plen": plen, "size": size, "big": if big { 1 } else { 0 },
+        // option areas that do not fit into a TCP header are refused when they are set: [kind (0 raw, 1 elements), requested size, verdict, size stated by the error]
+        let mut topt: Vec<Value> = vec![];
+        if cfg["tr"] == "tcp" && cfg["tcp_opts"] == 0 && plen <= 8 {
+            for n in [39usize, 40, 41, 44, 100] {
+                let b = match build(cfg) { Final::Tcp(b) => b, _ => unreachable!() };
+                match b.options_raw(&vec![1u8; n]) {
+                    Ok(b2) => topt.push(json!([0, n, "ok", b2.size(0) - size + plen])),
+                    Err(TcpOptionWriteError::NotEnoughSpace(m)) => topt.push(json!([0, n, "err", m])),
+                }
+            }
+            for k in [4usize, 5, 7] {
+                let b = match build(cfg) { Final::Tcp(b) => b, _ => unreachable!() };
+                match b.options(&vec![TcpOptionElement::Timestamp(1, 2); k]) {
+                    Ok(b2) => topt.push(json!([1, 10 * k, "ok", b2.size(0) - size + plen])),
+                    Err(TcpOptionWriteError::NotEnoughSpace(m)) => topt.push(json!([1, 10 * k, "err", m])),
+                }
+            }
+        }
+        json!({"ev": "build", "id": id, "cfg": cfg, "plen": plen, "size": size, "big": if big { 1 } else { 0 }, "topt": topt,
                "bytes": if big { out[..hdr_len.min(out.len()).min(400)].to_vec() } else { out.clone() }, "total": out.len(),
                "payload": if big { vec![] } else { payload.clone() },
                "write": write, "vec": vec_v, "slice": slice_v, "shorts": shorts, "faults": faults})
